@@ -99,9 +99,15 @@ def run(pid, tier, replay):
         tc = vlib.validate_trace_parallel("SegQueueTrace", "Trace_queue.cfg", tr, pid, accept="hw")
         if tc.incomplete:
             raise vlib.Inconclusive("trace not consumed: " + tc.incomplete[0])
+        unconfirmed = []
         for inv, rp, d in tc.failures:
             sig = signature(rp)
-            v.violation("%s on the real clientSegmentQueue, schedule %s (%s)" % (inv, sig, d), rp, signature=sig)
+            # a verdict needs a reproducible schedule: replay exactly this schedule again (DESIGN 6.3)
+            if confirm(binary, sig.split(","), work, pid):
+                v.violation("%s on the real clientSegmentQueue, schedule %s (%s)" % (inv, sig, d), rp, signature=sig)
+            else:
+                unconfirmed.append({"invariant": inv, "schedule": sig})
+                vlib.log("[C20] alarm %s on schedule %s did not reproduce in 40 re-runs: not reported" % (inv, sig))
 
         # 5. canary: a corrupted observation (consumer asleep with a segment queued) must be rejected
         can = canary(tr, work)
@@ -124,6 +130,7 @@ def run(pid, tier, replay):
             "conformance": {"traces_followed_by_model": tc.conforming, "traces": tc.traces,
                             "note": "spec drift is evidence only (DESIGN section 3)"},
             "canaries_rejected": 1,
+            "unconfirmed_alarms": unconfirmed,
             "exhaustive": True,
             "samples": [attacks[0], ex[0], head],
         })
@@ -132,6 +139,19 @@ def run(pid, tier, replay):
         return rcode
     finally:
         shutil.rmtree(work, ignore_errors=True)
+
+
+def confirm(binary, cmds, work, pid, n=40):
+    """Re-run one schedule n times; True iff a C20_* predicate fails again on at least one run."""
+    sp = os.path.join(work, "confirm.json")
+    tp = os.path.join(work, "confirm.ndjson")
+    with open(sp, "w") as f:
+        json.dump([cmds] * n, f)
+    rc, out, dt = vlib.drive(binary, ["queue-replay", "-scripts", sp, "-out", tp, "-n", "1"], timeout=600)
+    if rc != 0:
+        raise vlib.Inconclusive("confirmation replay failed: " + out[-1000:])
+    r, _ = vlib.validate_trace("SegQueueTrace", "Trace_queue.cfg", tp)
+    return r.kind == "invariant"
 
 
 def signature(replay_path):
